@@ -30,7 +30,8 @@ template <class Case> struct Level {
 // Case must provide: std::string json() const; uint64_t hash() const; static Case from(const vf::J&);
 template <class Case>
 int run(const Args &args, const std::vector<Level<Case>> &levels, const std::function<void(const Case &, vf::Stats &)> &oracle,
-        const std::map<std::string, std::string> &extra_raw = {}, double case_limit_s = 20) {
+        const std::map<std::string, std::string> &extra_raw = {}, double case_limit_s = 20,
+        const std::function<void(const Case &)> &on_confirmed_crash = nullptr) {
   double t0 = vf::now_s();
   if (!args.replay.empty()) {
     vf::J j = vf::jparse(vf::slurp(args.replay)); const vf::J &cj = j.has("case") ? j["case"] : j;
@@ -73,6 +74,7 @@ int run(const Args &args, const std::vector<Level<Case>> &levels, const std::fun
             else if (!how.empty()) repro++;
           }
           if (repro == 2) {
+            if (on_confirmed_crash) on_confirmed_crash(c);
             st.violation(c.key(), "crash (" + how + ") while executing this case: " + err.substr(0, 1200), ci.casejson);
           } else if (!reported.empty()) {
             st.violation(c.key(), reported[0], ci.casejson);
